@@ -1,5 +1,7 @@
 import PytmeModel.Model.C12
 import PytmeModel.Proofs.C12
+import PytmeModel.Proofs.C12b
+import Mathlib.Data.List.Nodup
 import Mathlib.Algebra.BigOperators.Group.List.Basic
 
 /-! # C12 — Fourier filters: consistent shapes, symmetric, bounded, stateless, composable
@@ -19,6 +21,41 @@ Clauses of the property and the theorems that carry them (all for every shape / 
 * composition = product ...... `compose_eq_product`, `product_perm`
 * statelessness .............. `call_state_unchanged`, `call_effective`, `runCalls_copy`,
                                `history_independent` (+ `callLeaky_current_defect`)
+
+Second part (decision logic that entered the model later; same clauses):
+
+* generic radial masks ........ `radialMask_eq_ax`, `radialMaskAx_shape/getD/half_is_part_of_full/neg_symm`; the
+                               non-astigmatic `CTF` of one image (`radialMaskOne_shape`,
+                               `radialMaskOne_half_is_part_of_full`, `radialMaskOne_neg_symm`: even in every
+                               frequency component); `CTF` layout: `ctfPlan_single`, `ctfPlan_mismatch`, `ctfPlan_stack`
+* whitening bins .............. `nBins_le_maxBins`, `nBins_le_requested`, `maxBins_pos`, `maxBins_covers_axes`,
+                               `bin_unique` (each voxel in exactly one radial average, or none beyond the last bin),
+                               `binsArr_shape/getD`, `binOfVoxel_eq_bins`, `binOfVoxel_neg_symm`, `binOfVoxel_dc`;
+                               `order=None` mask: `whitenNone_shape/getD/value_mem/reflect_symm`
+* per-tilt (step) wedge ....... `planeShape_odd`, `planeShape_crop_start`, `planeRow_lt`, `transpose2_getD`,
+                               `tilePlane_shape/getD/const_off_axes`, `stepVolume_getD`
+* tail of WedgeReconstructed .. `wedgeTail_shape`, `wedgeTail_half_is_part_of_full`, `wedgeTail_getD`,
+                               `wedgeTail_in_01`, `wedgeTail_weighted_values`, `wedgeTail_neg_symm`,
+                               `stepWedge_neg_symm_off_axes`; `wedgeTail_dc`, `wedgeTail_dc_kept` (zero frequency = centre of the
+                               centred volume), `contWedge_eq_tail` (the fused continuous-wedge model
+                               of the first part is the tail applied to `continuous_wedge`), `contWedge_dc_kept`
+* tilt-series `Wedge` ......... `wedgeWeightFunc_isSome`, `tiltShape_length`, `wedgeStackShape_eq`,
+                               `tiltPlaneZero_shape/values/neg_symm`, `tiltPlaneZero_eq_fn`,
+                               `tiltPlaneFn_shape/values/neg_symm` (any radial weighting: relion, grigorieff)
+* pass band is a radial band .. `discreteVal_one_iff`, `discrete_band`, `discrete_lowpass_ball` (`le` transitive)
+* zero frequency, Gaussian .... `dc_kept_gaussian_lowpass`, `dc_removed_gaussian_highpass`; hard edge closed form
+                               `bandpass_discrete_getD`
+* tilted planes ............... `linForm_neg`, `tiltedRadial_neg`, `tiltedPlane_shape`, `tiltedPlane_neg_symm_offNyquist`
+                               (any rotation matrix and radial weighting; `LinLaws`: negation laws up to the sign of zero)
+* range (exact rationals) ..... `wedgeTail_weighted_range_rat`, `fmin_le_rat`, `tiltPlaneFn_range_rat`, `tiltedPlane_range_rat`,
+                               `relion_bound_rat`, `grigorieff_exponent_rat`, `cut_range_rat`
+* reconstruction filters ...... `recFilterKind_isSome`, `recFilterRadial_shape/getD/neg_symm/centre`,
+                               `recFilterRamp_shape/getD/const_along_opening`, `recFilterRamp_le_one_rat`
+* stacks, weights, index lemmas `binShape_length`, `stepWeightsFromCos_iff`; `ks_neg`, `tiltK_neg`, `srcIdx_zeros`, `shiftSrc_zero`
+* `Wedge.__call__` angles ..... `wedgeCallPlan_no_override`, `wedgeCallPlan_raises_iff` (+ `wedgeCallPlan_override_current_defect`)
+* metadata through `Compose` .. `compose_keeps_unemitted_key`, `compose_overrides_emitted_key`, `rrf_never_emitted`,
+                               `shape_emitted_iff`, `multFlag_iff`, `readsSirf_iff`; `bandpass_after_wedge`, `whiten_after_wedge`
+                               (a filter that follows a reconstructed wedge returns its stand-alone half-spectrum mask)
 -/
 namespace Pm.C12
 
@@ -607,5 +644,1189 @@ example : runCalls callCopy [("a", "1")] [[("a", "2"), ("b", "3")], [("c", "4")]
     ([("a", "1")], [[("a", "2"), ("b", "3")], [("a", "1"), ("c", "4")]]) := by decide
 example : (compose (· * ·) [fun _ _ => ⟨some [2, 3], true, []⟩, fun _ _ => ⟨some [5, 7], true, [("shape", "x")]⟩]
     [] none).bind (·.data) = some [10, 21] := by decide
+
+
+/-! # second part: masks whose decision logic was not in the model before -/
+
+section
+variable {α : Type} (o : Ops α)
+
+/-! ## radial masks over arbitrary axes -/
+
+theorem radialMask_eq_ax (shape : List Nat) (sirf rrf : Bool) (val : α → α) :
+    radialMask o shape sirf rrf val = radialMaskAx o shape (axesHalf shape sirf) (rrf && !sirf) val := rfl
+
+theorem radialMaskAx_shape (shape : List Nat) (axs : List Ax) (crop : Bool) (val : α → α) :
+    (radialMaskAx o shape axs crop val).shape = if crop then cropShape shape else shape := by
+  unfold radialMaskAx
+  cases crop <;> simp [cropRealFourier, shiftFourier, Arr.ofFn]
+
+theorem radialMaskAx_getD (shape : List Nat) (axs : List Ax) (val : α → α) (idx : List Nat) (d : α)
+    (hn : axs.map Ax.n = shape) (h : inShape shape idx = true) :
+    (radialMaskAx o shape axs false val).getD idx d = val (radial o axs (srcIdx axs idx)) := by
+  unfold radialMaskAx
+  simp only [Bool.false_eq_true, if_false]
+  rw [shiftFourier_getD _ _ _ _ _ h]
+  have h2 : inShape shape (srcIdx axs idx) = true := by
+    have := inShape_srcIdx axs idx (by rw [hn]; exact h)
+    rwa [hn] at this
+  rw [Arr.getD_ofFn _ _ _ _ h2]
+
+theorem radialMaskAx_half_is_part_of_full (shape : List Nat) (axs : List Ax) (val : α → α) (idx : List Nat) (d : α)
+    (h : inShape (cropShape shape) idx = true) :
+    (radialMaskAx o shape axs true val).getD idx d = (radialMaskAx o shape axs false val).getD idx o.zero := by
+  unfold radialMaskAx
+  simp only [if_true, Bool.false_eq_true, if_false]
+  unfold cropRealFourier
+  exact Arr.getD_ofFn _ _ _ _ h
+
+theorem radialMaskAx_neg_symm (L : SignLaws o) (shape : List Nat) (axs : List Ax) (val : α → α)
+    (flags : List Bool) (idx : List Nat) (d : α) (hn : axs.map Ax.n = shape)
+    (h : inShape shape idx = true) (hf : flagsOk axs flags = true) :
+    (radialMaskAx o shape axs false val).getD (negIdx flags shape idx) d =
+      (radialMaskAx o shape axs false val).getD idx d := by
+  have h' : inShape (axs.map Ax.n) idx = true := by rw [hn]; exact h
+  have hneg : inShape shape (negIdx flags shape idx) = true := by
+    have := inShape_negIdx axs flags idx h' hf
+    rwa [hn] at this
+  rw [radialMaskAx_getD o shape axs val _ d hn hneg, radialMaskAx_getD o shape axs val _ d hn h]
+  have := radial_neg o L axs flags idx h' hf
+  rw [hn] at this
+  rw [this]
+
+/-- `CTF` of one untilted, non-astigmatic image (any function of the spatial frequency on the
+`sampling_rate = 1` grid): shape asked for -/
+theorem radialMaskOne_shape (shape : List Nat) (rrf : Bool) (val : α → α) :
+    (radialMaskOne o shape rrf val).shape = if rrf then cropShape shape else shape :=
+  radialMaskAx_shape o shape _ rrf val
+
+theorem radialMaskOne_half_is_part_of_full (shape : List Nat) (val : α → α) (idx : List Nat) (d : α)
+    (h : inShape (cropShape shape) idx = true) :
+    (radialMaskOne o shape true val).getD idx d = (radialMaskOne o shape false val).getD idx o.zero :=
+  radialMaskAx_half_is_part_of_full o shape _ val idx d h
+
+/-- … even in every frequency component: invariant under negating the frequency on any subset of axes -/
+theorem radialMaskOne_neg_symm (L : SignLaws o) (shape : List Nat) (val : α → α) (flags : List Bool)
+    (idx : List Nat) (d : α) (h : inShape shape idx = true) (hf : flagsOk (axesOne shape) flags = true) :
+    (radialMaskOne o shape false val).getD (negIdx flags shape idx) d = (radialMaskOne o shape false val).getD idx d :=
+  radialMaskAx_neg_symm o L shape _ val flags idx d (axesOne_n shape) h hf
+
+end
+
+/-! ## whitening: radial bins -/
+
+theorem nBins_le_maxBins (s : List Nat) (req : Option Nat) : nBins s req ≤ maxBins s := by
+  unfold nBins; cases req with
+  | none => exact Nat.le_refl _
+  | some n => exact Nat.min_le_right _ _
+
+theorem nBins_le_requested (s : List Nat) (n : Nat) : nBins s (some n) ≤ n := Nat.min_le_left _ _
+
+theorem maxBins_pos (s : List Nat) : 1 ≤ maxBins s := by
+  unfold maxBins; omega
+
+/-- there is a bin for the Nyquist index of every leading axis and for every index of the last axis -/
+theorem maxBins_covers_axes (s : List Nat) :
+    (∀ n ∈ s.dropLast, n / 2 + 1 ≤ maxBins s) ∧ s.getLastD 0 ≤ maxBins s := by
+  unfold maxBins
+  refine ⟨fun n hn => ?_, by omega⟩
+  have := (foldl_max_ge s.dropLast 0).2 n hn
+  have h2 : n / 2 ≤ List.foldl max 0 s.dropLast / 2 := Nat.div_le_div_right this
+  omega
+
+/-- every voxel is counted in exactly one radial average, or in none when its label lies beyond the
+last bin (the implicit low-pass of `ndimage.mean(..., index=arange(n_bins))`) -/
+theorem bin_unique (b nb : Nat) : (List.range nb).count b = if b < nb then 1 else 0 := by
+  split
+  · rename_i h
+    exact List.count_eq_one_of_mem List.nodup_range (List.mem_range.mpr h)
+  · rename_i h
+    exact List.count_eq_zero_of_not_mem (by simpa using h)
+
+section
+variable {α : Type} (o : Ops α)
+
+theorem binsArr_shape (s : List Nat) (nb : Nat) : (binsArr o s nb).shape = s := rfl
+
+theorem binsArr_getD (s : List Nat) (nb : Nat) (idx : List Nat) (d : Nat) (h : inShape s idx = true) :
+    (binsArr o s nb).getD idx d = binCentred o s nb idx := Arr.getD_ofFn _ _ _ _ h
+
+/-- the label of a voxel of `data_rfft` is the entry of `bins` at its `fftshift`-ed position -/
+theorem binOfVoxel_eq_bins (s : List Nat) (nb : Nat) (idx : List Nat) (d : Nat) (h : inShape s idx = true) :
+    binOfVoxel o s nb idx = (binsArr o s nb).getD (srcIdx (axesHalf s true) idx) d := by
+  have hn := axesHalf_n s true
+  have h2 : inShape s (srcIdx (axesHalf s true) idx) = true := by
+    have := inShape_srcIdx (axesHalf s true) idx (by rw [hn]; exact h)
+    rwa [hn] at this
+  rw [binsArr_getD o s nb _ d h2]; rfl
+
+/-- bins are symmetric under frequency negation on the two-sided (leading) axes: a voxel and its
+mirror image contribute to the same radial average -/
+theorem binOfVoxel_neg_symm (L : SignLaws o) (s : List Nat) (nb : Nat) (flags : List Bool) (idx : List Nat)
+    (h : inShape s idx = true) (hf : flagsOk (axesHalf s true) flags = true) :
+    binOfVoxel o s nb (negIdx flags s idx) = binOfVoxel o s nb idx := by
+  have hn := axesHalf_n s true
+  have h' : inShape ((axesHalf s true).map Ax.n) idx = true := by rw [hn]; exact h
+  have := radial_neg o L (axesHalf s true) flags idx h' hf
+  rw [hn] at this
+  unfold binOfVoxel binCentred
+  rw [this]
+
+/-- the zero frequency is labelled 0 (`floor(0 * (n_bins - 1) + 0.5) = 0`) -/
+theorem binOfVoxel_dc (Z : ZeroLaws o) (s : List Nat) (nb : Nat) (hpos : ∀ n ∈ s, 2 ≤ n)
+    (hfl : o.floorNat (o.add (o.mul o.zero (o.ofNat (nb - 1))) (half o)) = 0) :
+    binOfVoxel o s nb (s.map (fun _ => 0)) = 0 := by
+  unfold binOfVoxel binCentred binOf
+  rw [radial_dc o Z s true hpos]; exact hfl
+
+/-! ### `order=None`: the mask is the radial average of the voxel's own bin -/
+
+theorem whitenNone_shape (spec : Array α) (s : List Nat) (nb : Nat) : (whitenNone o spec s nb).shape = s := by
+  unfold whitenNone; rw [radialMask_shape]; simp
+
+theorem whitenNone_getD (spec : Array α) (s : List Nat) (nb : Nat) (idx : List Nat) (d : α)
+    (h : inShape s idx = true) :
+    (whitenNone o spec s nb).getD idx d =
+      if binOfVoxel o s nb idx < spec.size then spec.getD (binOfVoxel o s nb idx) o.zero else o.zero := by
+  unfold whitenNone
+  rw [radialMask_getD o s true false _ idx d (by simp) h]
+  rfl
+
+/-- every voxel of the mask is one of the radial averages, or zero beyond the last bin -/
+theorem whitenNone_value_mem (spec : Array α) (s : List Nat) (nb : Nat) (idx : List Nat) (d : α)
+    (h : inShape s idx = true) :
+    (whitenNone o spec s nb).getD idx d = o.zero ∨
+      ∃ b, b < spec.size ∧ (whitenNone o spec s nb).getD idx d = spec.getD b o.zero := by
+  rw [whitenNone_getD o spec s nb idx d h]
+  by_cases hb : binOfVoxel o s nb idx < spec.size
+  · exact Or.inr ⟨_, hb, by simp only [hb, if_true]⟩
+  · exact Or.inl (by simp only [hb, if_false])
+
+theorem whitenNone_reflect_symm (L : SignLaws o) (spec : Array α) (s : List Nat) (nb : Nat)
+    (flags : List Bool) (idx : List Nat) (d : α) (h : inShape s idx = true)
+    (hf : flagsOk (axesHalf s true) flags = true) :
+    (whitenNone o spec s nb).getD (negIdx flags s idx) d = (whitenNone o spec s nb).getD idx d := by
+  unfold whitenNone
+  exact radialMask_neg_symm o L _ _ _ _ _ _ _ (by simp) h hf
+
+end
+
+example : maxBins [9, 5] = 5 ∧ maxBins [6, 8, 3] = 5 ∧ nBins [9, 5] (some 3) = 3 ∧ nBins [9, 5] (some 1000) = 5 ∧ nBins [9, 5] none = 5 := by decide
+example : (List.range 5).count 3 = 1 ∧ (List.range 5).count 7 = 0 := by decide
+example : (binsArr ratOps [4, 3] 3).toList = [2, 3, 4, 1, 1, 3, 0, 1, 2, 1, 1, 3] := by decide +kernel
+example : (allIdx [4, 3]).map (binOfVoxel ratOps [4, 3] 3) = [0, 1, 2, 1, 1, 3, 2, 3, 4, 1, 1, 3] := by decide +kernel
+example : ratOps.floorNat (ratOps.add (ratOps.mul ratOps.zero (ratOps.ofNat (3 - 1))) (half ratOps)) = 0 := by decide +kernel
+example : (whitenNone ratOps #[1, 1/2, 1/4] [4, 3] 3).toList = [1, 1/2, 1/4, 1/2, 1/2, 0, 1/4, 0, 0, 1/2, 1/2, 0] := by decide +kernel
+
+
+/-! ## per-tilt (step) wedge and the common tail -/
+
+/-- the rotated plane always has an odd tilt extent … -/
+theorem planeShape_odd (s : List Nat) (op t : Nat) : (planeShape s op t).getD 1 0 % 2 = 1 := by
+  simp only [planeShape, List.getD_cons_succ, List.getD_cons_zero]; omega
+
+/-- … so `centered` crops nothing at the front (`_center_slice` start offsets are 0 on both axes) -/
+theorem planeShape_crop_start (s : List Nat) (op t : Nat) :
+    ((planeShape s op t).getD 0 0 - s.getD op 0) / 2 = 0 ∧ ((planeShape s op t).getD 1 0 - s.getD t 0) / 2 = 0 := by
+  simp only [planeShape, List.getD_cons_succ, List.getD_cons_zero]; omega
+
+theorem planeRow_lt (s : List Nat) (op t : Nat) (h : 0 < s.getD op 0) :
+    planeRow s op < (planeShape s op t).getD 0 0 := by
+  simp only [planeShape, planeRow, List.getD_cons_zero]; omega
+
+section
+variable {α : Type} (o : Ops α)
+
+theorem transpose2_getD (p : Arr α) (m n a b : Nat) (d : α) (hp : p.shape = [m, n]) :
+    (transpose2 p d).getD [a, b] d = p.getD [b, a] d := by
+  unfold transpose2
+  simp only [hp, List.getD_cons_zero, List.getD_cons_succ]
+  by_cases h : inShape [n, m] [a, b] = true
+  · rw [Arr.getD_ofFn _ _ _ _ h]; simp
+  · rw [Arr.getD_ofFn_out _ _ _ _ (by simpa using h)]
+    have : inShape p.shape [b, a] = false := by
+      rw [hp]; simp only [inShape, Bool.and_true] at h ⊢
+      simp only [Bool.and_eq_true, decide_eq_true_eq, not_and] at h
+      simp only [Bool.and_eq_false_iff, decide_eq_false_iff_not]
+      omega
+    unfold Arr.getD; simp [this]
+
+theorem tilePlane_shape (p : Arr α) (s : List Nat) (op t : Nat) (d : α) : (tilePlane p s op t d).shape = s := by
+  unfold tilePlane; rfl
+
+/-- `moveaxis` / `reshape` / `tile` of `step_wedge`: the voxel `idx` of the volume is the plane at
+`(idx[opening], idx[tilt])`, whichever of the two axes comes first -/
+theorem tilePlane_getD (p : Arr α) (s : List Nat) (op t m n : Nat) (d d' : α) (idx : List Nat)
+    (hp : p.shape = [m, n]) (h : inShape s idx = true) :
+    (tilePlane p s op t d).getD idx d' = p.getD [idx.getD op 0, idx.getD t 0] d := by
+  unfold tilePlane
+  rw [Arr.getD_ofFn _ _ _ _ h]
+  by_cases hto : t < op
+  · simp only [hto, if_true]
+    rw [Nat.min_eq_right (Nat.le_of_lt hto), Nat.max_eq_left (Nat.le_of_lt hto)]
+    exact transpose2_getD p m n _ _ d hp
+  · simp only [hto, if_false]
+    rw [Nat.min_eq_left (by omega), Nat.max_eq_right (by omega)]
+
+/-- a per-tilt wedge volume is constant along the axes that are neither opening nor tilt axis -/
+theorem tilePlane_const_off_axes (p : Arr α) (s : List Nat) (op t m n : Nat) (d d' : α) (idx idx' : List Nat)
+    (hp : p.shape = [m, n]) (h : inShape s idx = true) (h' : inShape s idx' = true)
+    (ho : idx.getD op 0 = idx'.getD op 0) (ht : idx.getD t 0 = idx'.getD t 0) :
+    (tilePlane p s op t d).getD idx d' = (tilePlane p s op t d).getD idx' d' := by
+  rw [tilePlane_getD p s op t m n d d' idx hp h, tilePlane_getD p s op t m n d d' idx' hp h', ho, ht]
+
+/-- what `step_wedge` returns, voxel by voxel: the accumulated plane, clipped to the largest weight -/
+theorem stepVolume_getD (plane : Arr α) (s : List Nat) (op t : Nat) (wmax d' : α) (idx : List Nat)
+    (hp : plane.shape = planeShape s op t) (h : inShape s idx = true)
+    (hio : idx.getD op 0 < s.getD op 0) (hit : idx.getD t 0 < s.getD t 0) :
+    (stepVolume o plane s op t wmax).getD idx d' =
+      fmin o (plane.getD [idx.getD op 0, idx.getD t 0] o.zero) wmax := by
+  unfold stepVolume
+  rw [tilePlane_getD _ s op t (s.getD op 0) (s.getD t 0) o.zero d' idx (by unfold cropPlane; rfl) h]
+  unfold cropPlane
+  have hin : inShape [s.getD op 0, s.getD t 0] [idx.getD op 0, idx.getD t 0] = true := by
+    simp only [inShape, Bool.and_true, Bool.and_eq_true, decide_eq_true_eq]
+    exact ⟨hio, hit⟩
+  rw [Arr.getD_ofFn _ _ _ _ hin]
+  have := planeShape_crop_start s op t
+  simp only [hp, List.getD_cons_zero, List.getD_cons_succ, this.1, this.2, Nat.add_zero]
+
+theorem wedgeTail_shape (vol : Arr α) (a : WTail α) :
+    (wedgeTail o vol a).shape = if a.rrf then cropShape a.shape else a.shape := by
+  unfold wedgeTail
+  cases h : a.rrf <;> simp [cropRealFourier, shiftFourier, Arr.ofFn]
+
+theorem wedgeTail_half_is_part_of_full (vol : Arr α) (a : WTail α) (idx : List Nat) (d : α)
+    (h : inShape (cropShape a.shape) idx = true) :
+    (wedgeTail o vol { a with rrf := true }).getD idx d = (wedgeTail o vol { a with rrf := false }).getD idx o.zero := by
+  unfold wedgeTail
+  simp only [if_true, Bool.false_eq_true, if_false]
+  unfold cropRealFourier
+  have : (shiftFourier (Arr.ofFn a.shape (tailCentred o vol { a with rrf := true })) (axesOne a.shape) o.zero)
+       = (shiftFourier (Arr.ofFn a.shape (tailCentred o vol { a with rrf := false })) (axesOne a.shape) o.zero) := rfl
+  rw [this]
+  exact Arr.getD_ofFn _ _ _ _ h
+
+theorem wedgeTail_getD (vol : Arr α) (a : WTail α) (idx : List Nat) (d : α) (hrrf : a.rrf = false)
+    (h : inShape a.shape idx = true) :
+    (wedgeTail o vol a).getD idx d = tailCentred o vol a (srcIdx (axesOne a.shape) idx) := by
+  unfold wedgeTail
+  simp only [hrrf, Bool.false_eq_true, if_false]
+  rw [shiftFourier_getD _ _ _ _ _ h]
+  have hn := axesOne_n a.shape
+  have h2 : inShape a.shape (srcIdx (axesOne a.shape) idx) = true := by
+    have := inShape_srcIdx (axesOne a.shape) idx (by rw [hn]; exact h)
+    rwa [hn] at this
+  exact Arr.getD_ofFn _ _ _ _ h2
+
+/-- an unweighted wedge (step or continuous) is 0/1-valued -/
+theorem wedgeTail_in_01 (vol : Arr α) (a : WTail α) (hw : a.weightWedge = false) (idx : List Nat) :
+    tailCentred o vol a idx = o.zero ∨ tailCentred o vol a idx = o.one := by
+  unfold tailCentred
+  simp only [hw, Bool.false_eq_true, if_false]
+  exact ite_in_pair _ _ _
+
+/-- a weighted wedge voxel is the volume's value, kept (`· * 1`) or removed (`· * 0`) by the cut-off -/
+theorem wedgeTail_weighted_values (vol : Arr α) (a : WTail α) (hw : a.weightWedge = true) (idx : List Nat) :
+    tailCentred o vol a idx = vol.getD idx o.zero ∨
+    tailCentred o vol a idx = o.mul (vol.getD idx o.zero) o.one ∨
+    tailCentred o vol a idx = o.mul (vol.getD idx o.zero) o.zero := by
+  unfold tailCentred
+  simp only [hw, if_true]
+  cases a.cutoff with
+  | none => exact Or.inl rfl
+  | some c =>
+    simp only
+    by_cases hc : o.le (radial o (axesOne a.shape) idx) c = true
+    · simp [hc]
+    · simp [hc]
+
+/-- the tail keeps whatever negation symmetry the centred volume has (the cut-off is radial) -/
+theorem wedgeTail_neg_symm (L : SignLaws o) (vol : Arr α) (a : WTail α) (flags : List Bool) (idx : List Nat) (d : α)
+    (hrrf : a.rrf = false) (h : inShape a.shape idx = true) (hf : flagsOk (axesOne a.shape) flags = true)
+    (hvol : vol.getD (srcIdx (axesOne a.shape) (negIdx flags a.shape idx)) o.zero =
+            vol.getD (srcIdx (axesOne a.shape) idx) o.zero) :
+    (wedgeTail o vol a).getD (negIdx flags a.shape idx) d = (wedgeTail o vol a).getD idx d := by
+  have hn := axesOne_n a.shape
+  have h' : inShape ((axesOne a.shape).map Ax.n) idx = true := by rw [hn]; exact h
+  have hneg : inShape a.shape (negIdx flags a.shape idx) = true := by
+    have := inShape_negIdx (axesOne a.shape) flags idx h' hf
+    rwa [hn] at this
+  rw [wedgeTail_getD o vol a _ d hrrf hneg, wedgeTail_getD o vol a idx d hrrf h]
+  have hrad := radial_neg o L (axesOne a.shape) flags idx h' hf
+  rw [hn] at hrad
+  unfold tailCentred
+  simp only [hvol, hrad]
+
+/-- a per-tilt (step) wedge, weighted or not, with or without cut-off, is symmetric under frequency
+negation on every axis other than the opening and the tilt axis (3-D: the remaining axis) -/
+theorem stepWedge_neg_symm_off_axes (L : SignLaws o) (p : Arr α) (a : WTail α) (op t m n : Nat)
+    (flags : List Bool) (idx : List Nat) (d : α) (hp : p.shape = [m, n])
+    (hrrf : a.rrf = false) (h : inShape a.shape idx = true) (hf : flagsOk (axesOne a.shape) flags = true)
+    (hfo : flags.getD op true = false) (hft : flags.getD t true = false) :
+    (wedgeTail o (tilePlane p a.shape op t o.zero) a).getD (negIdx flags a.shape idx) d =
+      (wedgeTail o (tilePlane p a.shape op t o.zero) a).getD idx d := by
+  apply wedgeTail_neg_symm o L _ a flags idx d hrrf h hf
+  have hn := axesOne_n a.shape
+  have h' : inShape ((axesOne a.shape).map Ax.n) idx = true := by rw [hn]; exact h
+  have hneg : inShape ((axesOne a.shape).map Ax.n) (negIdx flags ((axesOne a.shape).map Ax.n) idx) = true :=
+    inShape_negIdx (axesOne a.shape) flags idx h' hf
+  have s1 := inShape_srcIdx (axesOne a.shape) _ hneg
+  have s2 := inShape_srcIdx (axesOne a.shape) idx h'
+  have e1 := srcIdx_negIdx_getD (axesOne a.shape) flags idx op h' hf hfo
+  have e2 := srcIdx_negIdx_getD (axesOne a.shape) flags idx t h' hf hft
+  rw [hn] at s1 s2 e1 e2
+  rw [tilePlane_getD p a.shape op t m n o.zero o.zero _ hp s1, tilePlane_getD p a.shape op t m n o.zero o.zero _ hp s2,
+    e1, e2]
+
+end
+
+section
+variable {α : Type} (o : Ops α)
+
+theorem terms_dc_one (Z : ZeroLaws o) : ∀ (shape : List Nat), (∀ n ∈ shape, 1 ≤ n) →
+    ∀ x ∈ List.zipWith (term o) (axesOne shape) (srcIdx (axesOne shape) (shape.map (fun _ => 0))), x = o.zero
+  | [], _ => by simp [axesOne, srcIdx]
+  | n :: ns, hpos => by
+      intro x hx
+      simp only [axesOne_cons, srcIdx, List.map_cons, List.zipWith_cons_cons, List.mem_cons] at hx
+      have hn := hpos n List.mem_cons_self
+      rcases hx with hx | hx
+      · subst hx
+        rw [term_src o _ 0 (by show 0 < n; omega) rfl]
+        simp only [freqIndex_zero n (by omega)]
+        rw [Z.zero_div n (by omega), Z.mul_zero]
+      · exact terms_dc_one Z ns (fun m hm => hpos m (List.mem_cons_of_mem _ hm)) x (by simpa [srcIdx] using hx)
+
+theorem radial_dc_one (Z : ZeroLaws o) (shape : List Nat) (hpos : ∀ n ∈ shape, 1 ≤ n) :
+    radial o (axesOne shape) (srcIdx (axesOne shape) (shape.map (fun _ => 0))) = o.zero := by
+  unfold radial radial2
+  rw [foldl_add_zero o Z _ (terms_dc_one o Z shape hpos), Z.sqrt_zero]
+
+/-- the continuous wedge keeps the zero frequency: there the opening-axis index is 0, the ratio is
+the "infinite" stand-in `tan(90°) + 1`, which lies above the start limit; the cut-off is non-negative -/
+theorem contWedge_dc_kept (Z : ZeroLaws o) (a : WArgs α) (d : α) (hrrf : a.rrf = false)
+    (hpos : ∀ n ∈ a.shape, 1 ≤ n) (hop : a.opening < a.shape.length)
+    (hbig : o.le a.start a.big = true) (hcut : ∀ c, a.cutoff = some c → o.le o.zero c = true) :
+    (contWedge o a).getD (a.shape.map (fun _ => 0)) d = o.one := by
+  have hin := inShape_zeros1 a.shape hpos
+  rw [contWedge_getD o a _ d hrrf hin]
+  unfold wedgeCentred
+  simp only
+  have ko := k_at a.shape _ a.opening ⟨1, false, 1⟩ hin hop
+  rw [getD_map_zero] at ko
+  have hn : 0 < a.shape.getD a.opening 0 := by
+    exact hpos _ (getD_mem a.shape a.opening hop)
+  rw [freqIndex_zero _ hn] at ko
+  rw [ko, radial_dc_one o Z a.shape hpos]
+  unfold wedgeVal
+  simp only [if_true, hbig, Bool.true_or, Bool.true_and]
+  cases hc : a.cutoff with
+  | none => simp
+  | some c => simp [hcut c hc]
+
+/-- the fused model of the continuous wedge is the general tail applied to `continuous_wedge` -/
+theorem contWedge_eq_tail (T : TailLaws o) (a : WArgs α) :
+    contWedge o a = wedgeTail o (contVolume o a) ⟨a.shape, a.cutoff, false, a.rrf⟩ := by
+  unfold contWedge wedgeTail
+  simp only
+  have : Arr.ofFn a.shape (wedgeCentred o a) =
+      Arr.ofFn a.shape (tailCentred o (contVolume o a) ⟨a.shape, a.cutoff, false, a.rrf⟩) := by
+    apply Arr.ofFn_congr
+    intro idx h
+    unfold wedgeCentred tailCentred contVolume
+    rw [Arr.getD_ofFn _ _ _ _ h]
+    simp only [Bool.false_eq_true, if_false]
+    cases a.cutoff with
+    | none =>
+      simp only [Bool.and_true]
+      split <;> simp [T.zero_lt_one, T.zero_lt_zero]
+    | some c =>
+      simp only
+      by_cases hw : wedgeVal o a.start a.stop a.big
+          (((axesOne a.shape).getD a.tilt ⟨1, false, 1⟩).k (idx.getD a.tilt 0))
+          (((axesOne a.shape).getD a.opening ⟨1, false, 1⟩).k (idx.getD a.opening 0)) = true <;>
+        by_cases hc : o.le (radial o (axesOne a.shape) idx) c = true <;>
+        simp only [hw, hc, Bool.and_true, Bool.and_false, Bool.false_eq_true, if_true, if_false,
+          T.one_mul_one, T.one_mul_zero, T.zero_mul_one, T.zero_mul_zero, T.zero_lt_one, T.zero_lt_zero]
+  rw [this]
+
+/-! ## tilt-series `Wedge` -/
+
+theorem tiltShape_length (s : List Nat) (op : Nat) (h : op < s.length) : (tiltShape s op).length = s.length - 1 := by
+  unfold tiltShape; rw [List.length_eraseIdx]; simp [h]
+
+theorem wedgeStackShape_eq (s : List Nat) (op n : Nat) : wedgeStackShape s op n = n :: s.eraseIdx op := rfl
+
+theorem tiltPlaneZero_shape (ts : List Nat) (w : α) (c : Option α) : (tiltPlaneZero o ts w c).shape = ts := rfl
+
+/-- a `weight_angle` plane holds the tilt's weight, kept or removed by the cut-off -/
+theorem tiltPlaneZero_values (ts : List Nat) (w : α) (c : Option α) (idx : List Nat) (d : α)
+    (h : inShape ts idx = true) :
+    (tiltPlaneZero o ts w c).getD idx d = w ∨ (tiltPlaneZero o ts w c).getD idx d = o.mul w o.one ∨
+      (tiltPlaneZero o ts w c).getD idx d = o.mul w o.zero := by
+  unfold tiltPlaneZero
+  rw [Arr.getD_ofFn _ _ _ _ h]
+  cases c with
+  | none => exact Or.inl rfl
+  | some c =>
+    simp only
+    by_cases hc : o.le (radial o (axesOne ts) idx) c = true
+    · simp [hc]
+    · simp [hc]
+
+/-- the plane of an untilted image (centred layout, read through the `fftshift` position of a
+DC-first index) is symmetric under frequency negation -/
+theorem tiltPlaneZero_neg_symm (L : SignLaws o) (ts : List Nat) (w : α) (c : Option α) (flags : List Bool)
+    (idx : List Nat) (d : α) (h : inShape ts idx = true) (hf : flagsOk (axesOne ts) flags = true) :
+    (tiltPlaneZero o ts w c).getD (srcIdx (axesOne ts) (negIdx flags ts idx)) d =
+      (tiltPlaneZero o ts w c).getD (srcIdx (axesOne ts) idx) d := by
+  have hn := axesOne_n ts
+  have h' : inShape ((axesOne ts).map Ax.n) idx = true := by rw [hn]; exact h
+  have hneg := inShape_negIdx (axesOne ts) flags idx h' hf
+  have s1 := inShape_srcIdx (axesOne ts) _ hneg
+  have s2 := inShape_srcIdx (axesOne ts) idx h'
+  have hrad := radial_neg o L (axesOne ts) flags idx h' hf
+  rw [hn] at s1 s2 hrad
+  unfold tiltPlaneZero
+  rw [Arr.getD_ofFn _ _ _ _ s1, Arr.getD_ofFn _ _ _ _ s2, hrad]
+
+end
+
+/-- exactly the four documented weight types are accepted -/
+theorem wedgeWeightFunc_isSome (wt : Option String) :
+    (wedgeWeightFunc wt).isSome = (wt == none || wt == some "angle" || wt == some "relion" || wt == some "grigorieff") := by
+  cases wt with
+  | none => rfl
+  | some s =>
+    unfold wedgeWeightFunc
+    split <;> simp_all
+
+/-! ## `CTF` layout -/
+
+/-- one image: the full or the half spectrum as asked, DC first -/
+theorem ctfPlan_single (shape : List Nat) (nSelf : Nat) (rrf : Bool) :
+    ctfPlan shape none 1 nSelf 1 rrf = ⟨if rrf then cropShape shape else shape, true, rrf, none⟩ := by
+  simp [ctfPlan]
+
+/-- angles that do not match the defoci: the call's `return_real_fourier` and axes are ignored -/
+theorem ctfPlan_mismatch (shape : List Nat) (op : Option Nat) (nA nSelf nD : Nat) (rrf : Bool) (h : nA ≠ nD) :
+    ctfPlan shape op nA nSelf nD rrf = ctfPlan shape none nSelf nSelf nSelf false := by
+  simp [ctfPlan, h]
+
+/-- a tilt stack: one centred plane per tilt, never cropped -/
+theorem ctfPlan_stack (shape : List Nat) (oa n nSelf : Nat) (rrf : Bool) (h : n ≠ 1) :
+    ctfPlan shape (some oa) n nSelf n rrf = ⟨n :: tiltShape shape oa, false, false, some oa⟩ := by
+  simp [ctfPlan, h]
+
+example : ctfPlan [6, 7] none 1 1 1 true = ⟨[6, 4], true, true, none⟩ ∧
+    ctfPlan [6, 7, 8] (some 1) 3 3 3 true = ⟨[3, 6, 8], false, false, some 1⟩ ∧
+    ctfPlan [6, 7, 8] (some 1) 3 1 1 true = ⟨[6, 7, 8], true, false, none⟩ := by decide
+example : wedgeWeightFunc (some "relion") = some "weight_relion" ∧ wedgeWeightFunc (some "Angle") = none := by decide
+example : wedgeStackShape [5, 6, 7] 1 4 = [4, 5, 7] ∧ tiltShape [5, 6, 7] 2 = [5, 6] := by decide
+example : TailLaws ratOps := ratOps_tailLaws
+
+
+
+/-! ## what every filter class hands back to `Compose` -/
+
+theorem kwLookup_none_of_not_mem (k : String) : ∀ (m : Kw), k ∉ m.map Prod.fst → kwLookup k m = none
+  | [], _ => rfl
+  | (a, b) :: r, h => by
+      simp only [List.map_cons, List.mem_cons, not_or] at h
+      simp only [kwLookup]
+      rw [if_neg (fun e => h.1 e.symm)]
+      exact kwLookup_none_of_not_mem k r h.2
+
+theorem mem_reverse_fst (k : String) (m : Kw) : k ∈ m.reverse.map Prod.fst ↔ k ∈ m.map Prod.fst := by
+  simp
+
+/-- `kwargs.update(meta)`: a key the previous filter did not return reaches the next filter with the
+caller's value -/
+theorem compose_keeps_unemitted_key (kw info : Kw) (k : String) (h : k ∉ info.map Prod.fst) :
+    kwLookup k (kwUpdate kw info) = kwLookup k kw := by
+  have := call_effective kw info k
+  simp only [callCopy] at this
+  rw [this, kwLookup_none_of_not_mem k info.reverse (by rwa [mem_reverse_fst])]
+  rfl
+
+/-- … and a key it did return reaches it with the previous filter's value, whatever the caller said -/
+theorem compose_overrides_emitted_key (kw info : Kw) (k v : String) (h : kwLookup k info.reverse = some v) :
+    kwLookup k (kwUpdate kw info) = some v := by
+  have := call_effective kw info k
+  simp only [callCopy] at this
+  rw [this, h]; rfl
+
+/-- no filter hands `return_real_fourier` (nor `data_rfft`, `batch_dimension`) on: every member of a
+composition sees the caller's value -/
+theorem rrf_never_emitted (c : Cls) :
+    "return_real_fourier" ∉ emits c ∧ "data_rfft" ∉ emits c ∧ "batch_dimension" ∉ emits c := by
+  cases c <;> decide
+
+/-- only the reconstructed wedge and the tilt reconstruction change the `shape` /
+`shape_is_real_fourier` seen by later filters -/
+theorem shape_emitted_iff (c : Cls) :
+    ("shape" ∈ emits c ↔ c = .wedgeRec ∨ c = .reconstruct) ∧
+    ("shape_is_real_fourier" ∈ emits c ↔ c = .wedgeRec ∨ c = .reconstruct) := by
+  cases c <;> decide
+
+/-- every class but the tilt reconstruction is multiplicative, and says so -/
+theorem multFlag_iff (c : Cls) :
+    (multFlag c = true ↔ c ≠ .reconstruct) ∧ "is_multiplicative_filter" ∈ emits c := by
+  cases c <;> decide
+
+/-- the filters that may follow a reconstructed wedge in a composition (they honour the half-spectrum
+shape it hands on; see `rfshape_eq_crop`) -/
+theorem readsSirf_iff (c : Cls) : readsSirf c = true ↔ c = .bandpass ∨ c = .whitening := by
+  cases c <;> decide
+
+example : kwLookup "shape" (kwUpdate [("shape", "(8, 8)"), ("return_real_fourier", "True")]
+    [("shape", "(8, 5)"), ("shape_is_real_fourier", "True")]) = some "(8, 5)" ∧
+  kwLookup "return_real_fourier" (kwUpdate [("shape", "(8, 8)"), ("return_real_fourier", "True")]
+    [("shape", "(8, 5)"), ("shape_is_real_fourier", "True")]) = some "True" := by decide
+
+
+/-! ## tilt-series `Wedge`: planes of any radial weighting (`weight_relion`, `weight_grigorieff`) -/
+section
+variable {α : Type} (o : Ops α)
+
+theorem tiltPlaneZero_eq_fn (ts : List Nat) (w : α) (c : Option α) :
+    tiltPlaneZero o ts w c = tiltPlaneFn o ts (fun _ => w) c := by
+  unfold tiltPlaneZero tiltPlaneFn
+  apply Arr.ofFn_congr
+  intro idx _
+  cases c <;> rfl
+
+theorem tiltPlaneFn_shape (ts : List Nat) (val : α → α) (c : Option α) : (tiltPlaneFn o ts val c).shape = ts := rfl
+
+/-- a plane of `weight_relion` / `weight_grigorieff` (any radial weighting) holds the weighting of the
+voxel's frequency, kept or removed by the cut-off -/
+theorem tiltPlaneFn_values (ts : List Nat) (val : α → α) (c : Option α) (idx : List Nat) (d : α)
+    (h : inShape ts idx = true) :
+    let v := val (radial o (axesOne ts) idx)
+    (tiltPlaneFn o ts val c).getD idx d = v ∨ (tiltPlaneFn o ts val c).getD idx d = o.mul v o.one ∨
+      (tiltPlaneFn o ts val c).getD idx d = o.mul v o.zero := by
+  intro v
+  unfold tiltPlaneFn
+  rw [Arr.getD_ofFn _ _ _ _ h]
+  cases c with
+  | none => exact Or.inl rfl
+  | some c =>
+    simp only
+    by_cases hc : o.le (radial o (axesOne ts) idx) c = true
+    · simp [hc, v]
+    · simp [hc, v]
+
+/-- … and is symmetric under frequency negation (read through the `fftshift` position of a DC-first index) -/
+theorem tiltPlaneFn_neg_symm (L : SignLaws o) (ts : List Nat) (val : α → α) (c : Option α) (flags : List Bool)
+    (idx : List Nat) (d : α) (h : inShape ts idx = true) (hf : flagsOk (axesOne ts) flags = true) :
+    (tiltPlaneFn o ts val c).getD (srcIdx (axesOne ts) (negIdx flags ts idx)) d =
+      (tiltPlaneFn o ts val c).getD (srcIdx (axesOne ts) idx) d := by
+  have hn := axesOne_n ts
+  have h' : inShape ((axesOne ts).map Ax.n) idx = true := by rw [hn]; exact h
+  have hneg := inShape_negIdx (axesOne ts) flags idx h' hf
+  have s1 := inShape_srcIdx (axesOne ts) _ hneg
+  have s2 := inShape_srcIdx (axesOne ts) idx h'
+  have hrad := radial_neg o L (axesOne ts) flags idx h' hf
+  rw [hn] at s1 s2 hrad
+  unfold tiltPlaneFn
+  rw [Arr.getD_ofFn _ _ _ _ s1, Arr.getD_ofFn _ _ _ _ s2, hrad]
+
+end
+example : (tiltPlaneFn ratOps [3, 4] (relionVal ratOps (-1) 1) (some (1/4))).toList =
+    [0, 20736/21361, 81/82, 20736/21361, 16/17, 256/257, 1, 256/257, 0, 20736/21361, 81/82, 20736/21361] := by decide +kernel
+
+
+/-! ## non-vacuity (second part) -/
+
+/-- accumulated rotated planes of a 3×4 per-tilt wedge (opening axis 0, tilt axis 1: tilt extent padded to 5),
+one value above the largest weight 2 -/
+def exPlane : Arr Rat := ⟨[3, 5], #[0, 0, 1/2, 0, 0,  1, 1, 3, 1, 1,  0, 0, 1/2, 0, 0]⟩
+
+example : planeShape [6, 7, 8] 0 2 = [6, 9] ∧ planeShape [6, 7, 8] 2 1 = [8, 7] ∧ planeRow [6, 7, 8] 0 = 3 := by decide
+example : exPlane.shape = planeShape [3, 4] 0 1 ∧ exPlane.shape = planeShape [4, 3] 1 0 := by decide
+example : (stepVolume ratOps exPlane [3, 4] 0 1 2).toList = [0, 0, 1/2, 0, 1, 1, 2, 1, 0, 0, 1/2, 0] := by decide +kernel
+-- opening axis after the tilt axis: `moveaxis`
+example : (stepVolume ratOps exPlane [4, 3] 1 0 2).toList = [0, 1, 0, 0, 1, 0, 1/2, 2, 1/2, 0, 1, 0] := by decide +kernel
+-- 3-D: tiled along the remaining axis
+example : (stepVolume ratOps exPlane [3, 2, 4] 0 2 2).toList =
+    [0, 0, 1/2, 0, 0, 0, 1/2, 0, 1, 1, 2, 1, 1, 1, 2, 1, 0, 0, 1/2, 0, 0, 0, 1/2, 0] := by decide +kernel
+example : (wedgeTail ratOps (stepVolume ratOps exPlane [3, 4] 0 1 2) ⟨[3, 4], some (1/4), false, false⟩).toList =
+    [1, 1, 1, 1, 1, 0, 0, 0, 1, 0, 0, 0] := by decide +kernel
+example : (wedgeTail ratOps (stepVolume ratOps exPlane [3, 4] 0 1 2) ⟨[3, 4], some (1/4), true, true⟩).toList =
+    [2, 1, 1, 1/2, 0, 0, 1/2, 0, 0] := by decide +kernel
+example : flagsOk (axesOne [3, 2, 4]) [false, true, false] = true ∧ [false, true, false].getD 0 true = false ∧
+    [false, true, false].getD 2 true = false := by decide
+example : (radialMaskOne ratOps [4, 3] false (fun r => 1 - r)).toList =
+    [1, 8/9, 8/9, 15/16, 119/144, 119/144, 3/4, 23/36, 23/36, 15/16, 119/144, 119/144] := by decide +kernel
+example : (radialMaskOne ratOps [4, 3] true (fun r => 1 - r)).toList = [1, 8/9, 15/16, 119/144, 3/4, 23/36, 15/16, 119/144] := by
+  decide +kernel
+/-- the continuous wedge of the first part: hypotheses of `contWedge_dc_kept` hold, the zero frequency is kept -/
+def exW : WArgs Rat := ⟨[4, 4], 1, -1/2, 100, 0, 1, some (1/4), false⟩
+example : ratOps.le exW.start exW.big = true ∧ (∀ c, exW.cutoff = some c → ratOps.le ratOps.zero c = true) := by
+  refine ⟨by decide +kernel, ?_⟩
+  intro c h
+  have : c = 1/4 := by simpa [exW] using h.symm
+  subst this; decide +kernel
+example : (contWedge ratOps exW).getD [0, 0] 7 = 1 := by decide +kernel
+example : (wedgeTail ratOps (contVolume ratOps exW) ⟨[4, 4], some (1/4), false, false⟩).toList =
+    [1, 1, 1, 1, 0, 1, 0, 1, 0, 0, 0, 0, 0, 1, 0, 1] := by decide +kernel
+example : (tiltPlaneZero ratOps [3, 4] (7/10) (some (1/8))).toList = [0, 0, 7/10, 0, 0, 7/10, 7/10, 7/10, 0, 0, 7/10, 0] := by
+  decide +kernel
+example : tiltShape [5, 6, 7] 1 = [5, 7] ∧ 1 < [5, 6, 7].length := by decide
+example : emits .bandpass = ["sampling_rate", "is_multiplicative_filter"] ∧ multFlag .reconstruct = false := by decide
+
+
+section
+variable {α : Type} (o : Ops α)
+
+/-! ## zero frequency under Gaussian edges; closed form of the hard edge -/
+
+/-- closed form of a hard-edged voxel: passed iff its radial frequency lies between the cut-offs -/
+theorem bandpass_discrete_getD (a : BPArgs α) (hg : a.gaussian = false) (idx : List Nat) (d : α)
+    (hr : (a.rrf && !a.sirf) = false) (h : inShape a.shape idx = true) :
+    (bandpass o a).getD idx d =
+      discreteVal o (a.lowpass.map (cutOf o a.srs)) (a.highpass.map (cutOf o a.srs))
+        (radial o (axesHalf a.shape a.sirf) (srcIdx (axesHalf a.shape a.sirf) idx)) := by
+  unfold bandpass
+  rw [radialMask_getD o _ _ _ _ idx d hr h]
+  unfold bandpassVal
+  simp only [hg, Bool.false_eq_true, if_false]
+
+/-- a Gaussian low-pass keeps the zero frequency: `exp(-0 / den) = 1` there -/
+theorem dc_kept_gaussian_lowpass (Z : ZeroLaws o) (a : BPArgs α) (d : α) (hg : a.gaussian = true)
+    (hr : (a.rrf && !a.sirf) = false) (hpos : ∀ n ∈ a.shape, 2 ≤ n) (hhp : a.highpass = none)
+    (hexp : ∀ l, a.lowpass = some l →
+      o.exp (o.div (o.neg (o.mul o.zero o.zero)) (gaussDen o (gaussUpper o a) l)) = o.one)
+    (h11 : o.mul o.one o.one = o.one) :
+    (bandpass o a).getD (a.shape.map (fun _ => 0)) d = o.one := by
+  unfold bandpass
+  rw [radialMask_getD o _ _ _ _ _ d hr (inShape_zeros a.shape hpos), radial_dc o Z a.shape a.sirf hpos]
+  unfold bandpassVal gaussVal
+  simp only [hg, if_true, hhp]
+  cases hl : a.lowpass with
+  | none => exact h11
+  | some l =>
+    simp only
+    have := hexp l hl
+    unfold gaussUpper at this
+    rw [this]; exact h11
+
+/-- a Gaussian high-pass removes the zero frequency: `1 - exp(-0 / den) = 0` there -/
+theorem dc_removed_gaussian_highpass (Z : ZeroLaws o) (a : BPArgs α) (d : α) (hg : a.gaussian = true)
+    (hr : (a.rrf && !a.sirf) = false) (hpos : ∀ n ∈ a.shape, 2 ≤ n) (c : α) (hhp : a.highpass = some c)
+    (hexp : ∀ l, a.lowpass = some l ∨ l = c →
+      o.exp (o.div (o.neg (o.mul o.zero o.zero)) (gaussDen o (gaussUpper o a) l)) = o.one)
+    (hsub : o.sub o.one o.one = o.zero) (h10 : o.mul o.one o.zero = o.zero) :
+    (bandpass o a).getD (a.shape.map (fun _ => 0)) d = o.zero := by
+  unfold bandpass
+  rw [radialMask_getD o _ _ _ _ _ d hr (inShape_zeros a.shape hpos), radial_dc o Z a.shape a.sirf hpos]
+  unfold bandpassVal gaussVal
+  simp only [hg, if_true, hhp]
+  have hc := hexp c (Or.inr rfl)
+  unfold gaussUpper at hc
+  rw [hc, hsub]
+  cases hl : a.lowpass with
+  | none => exact h10
+  | some l =>
+    simp only
+    have := hexp l (Or.inl hl)
+    unfold gaussUpper at this
+    rw [this]; exact h10
+
+end
+
+/-- Gaussian low-pass 4×4, lowpass = 4 voxels at sampling rate 1 (exact stand-in `exp x = 1/(1-x)`): the
+hypotheses of `dc_kept_gaussian_lowpass` hold and the zero frequency is kept; with a high-pass it is removed -/
+def exBG : BPArgs Rat := ⟨[4, 4], some 4, none, [1], true, false, false⟩
+example : ∀ l, exBG.lowpass = some l →
+    ratOps.exp (ratOps.div (ratOps.neg (ratOps.mul ratOps.zero ratOps.zero)) (gaussDen ratOps (gaussUpper ratOps exBG) l)) = ratOps.one := by
+  intro l h
+  have : l = 4 := by simpa [exBG] using h.symm
+  subst this; decide +kernel
+example : (bandpass ratOps exBG).getD [0, 0] 7 = 1 ∧ (bandpass ratOps { exBG with highpass := some 8 }).getD [0, 0] 7 = 0 := by
+  decide +kernel
+example : ratOps.sub ratOps.one ratOps.one = ratOps.zero ∧ ratOps.mul ratOps.one ratOps.zero = ratOps.zero ∧
+    ratOps.mul ratOps.one ratOps.one = ratOps.one := by decide +kernel
+
+
+
+/-! ## tilted images (`frequency_grid_at_angle`, angle ≠ 0) -/
+
+/-- centred grid values read at the negated DC-first index: exactly negated off the Nyquist terms -/
+theorem ks_neg : ∀ (ts idx : List Nat), inShape ts idx = true → offNyquist ts idx = true →
+    List.zipWith (fun (n i : Nat) => (i : Int) - ((n / 2 : Nat) : Int)) ts
+        (srcIdx (axesOne ts) (negIdx (ts.map (fun _ => true)) ts idx)) =
+      (List.zipWith (fun (n i : Nat) => (i : Int) - ((n / 2 : Nat) : Int)) ts (srcIdx (axesOne ts) idx)).map (fun x => -x)
+  | [], [], _, _ => rfl
+  | [], _ :: _, h, _ => by simp [inShape] at h
+  | _ :: _, [], h, _ => by simp [inShape] at h
+  | n :: ns, i :: is, h, hny => by
+      obtain ⟨hi, hr⟩ := inShape_cons.mp h
+      simp only [offNyquist, Bool.and_eq_true, decide_eq_true_eq] at hny
+      simp only [axesOne_cons, List.map_cons, negIdx, if_true, srcIdx, List.zipWith_cons_cons]
+      have ih := ks_neg ns is hr hny.2
+      simp only [srcIdx] at ih
+      rw [ih]
+      congr 1
+      simp only [Ax.src, Bool.false_eq_true, if_false]
+      have a := k_shiftSrc n (negPos n i) (negPos_lt n i hi)
+      have b := k_shiftSrc n i hi
+      unfold center at a b
+      rw [a, b, freqIndex_negPos_exact n i hi hny.1]
+
+theorem tiltK_neg (ts : List Nat) (op : Nat) (idx : List Nat) (h : inShape ts idx = true)
+    (hny : offNyquist ts idx = true) :
+    tiltK ts op (srcIdx (axesOne ts) (negIdx (ts.map (fun _ => true)) ts idx)) =
+      (tiltK ts op (srcIdx (axesOne ts) idx)).map (fun x => -x) := by
+  unfold tiltK
+  simp only [ks_neg ts idx h hny, List.map_append, List.map_cons, List.map_take, List.map_drop, Int.neg_zero]
+
+
+
+
+section
+variable {α : Type} (o : Ops α)
+
+theorem linForm_neg {E : α → α → Prop} (N : LinLaws o E) (row : List α) (k : List Int) :
+    E (linForm o row (k.map (fun x => -x))) (o.neg (linForm o row k)) :=
+  foldl_linForm_neg o N row k _ _ N.zero
+
+theorem tiltedRadial_neg {E : α → α → Prop} (N : LinLaws o E) (R : List (List α)) (shape : List Nat) (k : List Int) :
+    tiltedRadial o R shape (k.map (fun x => -x)) = tiltedRadial o R shape k := by
+  unfold tiltedRadial
+  simp only
+  congr 2
+  induction R generalizing shape with
+  | nil => rfl
+  | cons row rows ih =>
+    cases shape with
+    | nil => rfl
+    | cons n ns =>
+      simp only [List.zipWith_cons_cons, List.map_cons, ih ns]
+      rw [N.sq_div _ _ _ (linForm_neg o N row k)]
+
+end
+
+section
+variable {α : Type} (o : Ops α)
+
+theorem tiltedPlane_shape (R : List (List α)) (shape : List Nat) (op : Nat) (val : α → α) (c : Option α) :
+    (tiltedPlane o R shape op val c).shape = tiltShape shape op := rfl
+
+/-- the plane of a tilted image (any rotation matrix, any radial weighting - `weight_angle`,
+`weight_relion`, `weight_grigorieff`, the cut-off mask of `Wedge.__call__`, the frequency grid of a tilt-stack
+`CTF`), read DC first, is symmetric under frequency negation at every frequency that has no Nyquist component
+of an even extent -/
+theorem tiltedPlane_neg_symm_offNyquist {E : α → α → Prop} (N : LinLaws o E) (R : List (List α)) (shape : List Nat)
+    (op : Nat) (val : α → α) (c : Option α) (idx : List Nat) (d : α)
+    (h : inShape (tiltShape shape op) idx = true) (hny : offNyquist (tiltShape shape op) idx = true) :
+    (tiltedPlane o R shape op val c).getD
+        (srcIdx (axesOne (tiltShape shape op)) (negIdx ((tiltShape shape op).map (fun _ => true)) (tiltShape shape op) idx)) d =
+      (tiltedPlane o R shape op val c).getD (srcIdx (axesOne (tiltShape shape op)) idx) d := by
+  have hn := axesOne_n (tiltShape shape op)
+  have h' : inShape ((axesOne (tiltShape shape op)).map Ax.n) idx = true := by rw [hn]; exact h
+  have hf := flagsOk_one_all_true (tiltShape shape op)
+  have hneg := inShape_negIdx (axesOne (tiltShape shape op)) _ idx h' hf
+  have s1 := inShape_srcIdx (axesOne (tiltShape shape op)) _ hneg
+  have s2 := inShape_srcIdx (axesOne (tiltShape shape op)) idx h'
+  rw [hn] at s1 s2
+  unfold tiltedPlane
+  rw [Arr.getD_ofFn _ _ _ _ s1, Arr.getD_ofFn _ _ _ _ s2]
+  simp only [tiltK_neg _ op idx h hny, tiltedRadial_neg o N]
+
+end
+
+example : LinLaws ratOps Eq := ratOps_linLaws
+example : offNyquist [4, 5] [1, 2] = true ∧ offNyquist [4, 5] [2, 2] = false := by decide
+example : tiltK [4, 5] 1 [3, 0] = [1, 0, -2] ∧ tiltK [4, 5] 0 [3, 0] = [0, 1, -2] := by decide
+
+/-- a rotation by the angle with cos 3/5, sin 4/5 about the last axis of a 4×3×4 volume opened along axis 1 -/
+def exR : List (List Rat) := [[3/5, -4/5, 0], [4/5, 3/5, 0], [0, 0, 1]]
+example : (tiltedPlane ratOps exR [4, 3, 4] 1 (fun r => r) none).toList =
+    [281/450, 1573/3600, 337/900, 1573/3600, 1237/3600, 281/1800, 337/3600, 281/1800, 1/4, 1/16, 0, 1/16,
+     1237/3600, 281/1800, 337/3600, 281/1800] := by decide +kernel
+example : (tiltedPlane ratOps exR [4, 3, 4] 1 (fun _ => 7/10) (some (1/10))).toList =
+    [0, 0, 0, 0, 0, 0, 7/10, 0, 0, 7/10, 7/10, 7/10, 0, 0, 7/10, 0] := by decide +kernel
+example : inShape (tiltShape [4, 3, 4] 1) [1, 3] = true ∧ offNyquist (tiltShape [4, 3, 4] 1) [1, 3] = true := by decide
+
+
+/-! ## zero frequency of the wedges -/
+
+theorem shiftSrc_zero (n : Nat) (h : 0 < n) : shiftSrc n 0 = n / 2 := by
+  rw [shiftSrc_eq n 0 h]; split <;> omega
+
+/-- the zero frequency sits at the centre `n // 2` of the centred volume -/
+theorem srcIdx_zeros : ∀ (s : List Nat), (∀ n ∈ s, 1 ≤ n) →
+    srcIdx (axesOne s) (s.map (fun _ => 0)) = s.map (fun n => n / 2)
+  | [], _ => rfl
+  | n :: ns, h => by
+      simp only [axesOne_cons, List.map_cons, srcIdx, List.zipWith_cons_cons]
+      have ih := srcIdx_zeros ns (fun m hm => h m (List.mem_cons_of_mem _ hm))
+      simp only [srcIdx] at ih
+      rw [ih]
+      congr 1
+      simp only [Ax.src, Bool.false_eq_true, if_false]
+      exact shiftSrc_zero n (by have := h n List.mem_cons_self; omega)
+
+section
+variable {α : Type} (o : Ops α)
+
+/-- zero frequency of any wedge (step or continuous): the centre value of the centred volume, multiplied by 1 when
+a non-negative cut-off is present, thresholded unless weighted -/
+theorem wedgeTail_dc (Z : ZeroLaws o) (vol : Arr α) (a : WTail α) (d : α) (hrrf : a.rrf = false)
+    (hpos : ∀ n ∈ a.shape, 1 ≤ n) (hcut : ∀ c, a.cutoff = some c → o.le o.zero c = true) :
+    (wedgeTail o vol a).getD (a.shape.map (fun _ => 0)) d =
+      (let v := vol.getD (a.shape.map (fun n => n / 2)) o.zero
+       let v := match a.cutoff with | none => v | some _ => o.mul v o.one
+       if a.weightWedge then v else (if o.lt o.zero v then o.one else o.zero)) := by
+  rw [wedgeTail_getD o vol a _ d hrrf (inShape_zeros1 a.shape hpos)]
+  unfold tailCentred
+  rw [radial_dc_one o Z a.shape hpos, srcIdx_zeros a.shape hpos]
+  cases hc : a.cutoff with
+  | none => rfl
+  | some c => simp only [hcut c hc, if_true]
+
+/-- an unweighted wedge whose centred volume is positive at the centre keeps the zero frequency -/
+theorem wedgeTail_dc_kept (Z : ZeroLaws o) (vol : Arr α) (a : WTail α) (d : α) (hrrf : a.rrf = false)
+    (hw : a.weightWedge = false) (hpos : ∀ n ∈ a.shape, 1 ≤ n) (hcut : ∀ c, a.cutoff = some c → o.le o.zero c = true)
+    (hv : o.lt o.zero (vol.getD (a.shape.map (fun n => n / 2)) o.zero) = true)
+    (hv1 : o.lt o.zero (o.mul (vol.getD (a.shape.map (fun n => n / 2)) o.zero) o.one) = true) :
+    (wedgeTail o vol a).getD (a.shape.map (fun _ => 0)) d = o.one := by
+  rw [wedgeTail_dc o Z vol a d hrrf hpos hcut]
+  simp only [hw, Bool.false_eq_true, if_false]
+  cases a.cutoff with
+  | none => simp only [hv, if_true]
+  | some c => simp only [hv1, if_true]
+
+end
+
+example : (wedgeTail ratOps (stepVolume ratOps exPlane [3, 4] 0 1 2) ⟨[3, 4], some (1/4), false, false⟩).getD [0, 0] 7 = 1 ∧
+    (stepVolume ratOps exPlane [3, 4] 0 1 2).getD [1, 2] 0 = 2 ∧ ratOps.lt ratOps.zero 2 = true := by decide +kernel
+
+
+
+/-! ## range under exact arithmetic (rational scalars), given the range of the profile / of the planes -/
+
+theorem cut_range_rat (v lo hi : Rat) (b : Bool) (hlo : lo ≤ 0) (hhi : 0 ≤ hi) (h : lo ≤ v ∧ v ≤ hi) :
+    lo ≤ ratOps.mul v (if b then ratOps.one else ratOps.zero) ∧ ratOps.mul v (if b then ratOps.one else ratOps.zero) ≤ hi := by
+  cases b
+  · show lo ≤ v * 0 ∧ v * 0 ≤ hi
+    simp only [mul_zero]; exact ⟨hlo, hhi⟩
+  · show lo ≤ v * 1 ∧ v * 1 ≤ hi
+    simp only [mul_one]; exact h
+
+/-- a weighted wedge stays within the range `[0, W]` of its centred volume (`W` = largest weight, by the `fmin`) -/
+theorem wedgeTail_weighted_range_rat (vol : Arr Rat) (a : WTail Rat) (W : Rat) (hW : 0 ≤ W) (hw : a.weightWedge = true)
+    (hvol : ∀ idx, 0 ≤ vol.getD idx 0 ∧ vol.getD idx 0 ≤ W) (idx : List Nat) :
+    0 ≤ tailCentred ratOps vol a idx ∧ tailCentred ratOps vol a idx ≤ W := by
+  unfold tailCentred
+  simp only [hw, if_true]
+  cases a.cutoff with
+  | none => exact hvol idx
+  | some c => exact cut_range_rat _ 0 W _ (le_refl 0) hW (hvol idx)
+
+/-- the clip of `step_wedge` bounds the volume by the largest weight -/
+theorem fmin_le_rat (x w : Rat) : fmin ratOps x w ≤ w := by
+  unfold fmin
+  show (if decide (x ≤ w) = true then x else w) ≤ w
+  by_cases h : x ≤ w <;> simp [h]
+
+/-- planes of untilted and tilted images stay within the range `[lo, hi] ∋ 0` of the radial weighting
+(`weight_angle`: `[0, w]`; relion: `[0, 1]` for `|angle| ≤ 90°`; grigorieff: `[0, 1]`) -/
+theorem tiltPlaneFn_range_rat (ts : List Nat) (val : Rat → Rat) (c : Option Rat) (lo hi : Rat) (hlo : lo ≤ 0) (hhi : 0 ≤ hi)
+    (hval : ∀ r, lo ≤ val r ∧ val r ≤ hi) (idx : List Nat) (d : Rat) (h : inShape ts idx = true) :
+    lo ≤ (tiltPlaneFn ratOps ts val c).getD idx d ∧ (tiltPlaneFn ratOps ts val c).getD idx d ≤ hi := by
+  unfold tiltPlaneFn
+  rw [Arr.getD_ofFn _ _ _ _ h]
+  cases c with
+  | none => exact hval _
+  | some c => exact cut_range_rat _ lo hi _ hlo hhi (hval _)
+
+theorem tiltedPlane_range_rat (R : List (List Rat)) (shape : List Nat) (op : Nat) (val : Rat → Rat) (c : Option Rat)
+    (lo hi : Rat) (hlo : lo ≤ 0) (hhi : 0 ≤ hi) (hval : ∀ r, lo ≤ val r ∧ val r ≤ hi) (idx : List Nat) (d : Rat)
+    (h : inShape (tiltShape shape op) idx = true) :
+    lo ≤ (tiltedPlane ratOps R shape op val c).getD idx d ∧ (tiltedPlane ratOps R shape op val c).getD idx d ≤ hi := by
+  unfold tiltedPlane
+  rw [Arr.getD_ofFn _ _ _ _ h]
+  cases c with
+  | none => exact hval _
+  | some c => exact cut_range_rat _ lo hi _ hlo hhi (hval _)
+
+/-- relion weighting: `exp(·) ∈ [0, 1]` times `cos(angle) ∈ [-1, 1]` lies in `[-1, 1]`, in `[0, 1]` for `|angle| ≤ 90°` -/
+theorem relion_bound_rat (e c : Rat) (he : 0 ≤ e ∧ e ≤ 1) (hc : -1 ≤ c ∧ c ≤ 1) :
+    -1 ≤ ratOps.mul e c ∧ ratOps.mul e c ≤ 1 ∧ (0 ≤ c → 0 ≤ ratOps.mul e c) := by
+  show -1 ≤ e * c ∧ e * c ≤ 1 ∧ (0 ≤ c → 0 ≤ e * c)
+  refine ⟨by nlinarith [he.1, he.2, hc.1, hc.2], by nlinarith [he.1, he.2, hc.1, hc.2], fun h => mul_nonneg he.1 h⟩
+
+/-- grigorieff weighting: for a non-negative dose `w` and `amplitude * f^power + offset > 0` the exponent is `≤ 0` -/
+theorem grigorieff_exponent_rat (w q : Rat) (hw : 0 ≤ w) (hq : 0 < q) :
+    ratOps.div w (ratOps.mul (ratOps.neg (ratOps.ofNat 2)) q) ≤ 0 := by
+  show w / ((-((2 : Nat) : Rat)) * q) ≤ 0
+  apply div_nonpos_of_nonneg_of_nonpos hw
+  push_cast; nlinarith
+
+example : (∀ r : Rat, (0 : Rat) ≤ (fun _ => (7 : Rat) / 10) r ∧ (fun _ => (7 : Rat) / 10) r ≤ 7 / 10) := by
+  intro r; constructor <;> norm_num
+example : fmin ratOps 3 2 = 2 ∧ fmin ratOps (1/2) 2 = 1/2 := by decide +kernel
+
+
+
+/-! ## reconstruction filters of the per-tilt wedge -/
+
+/-- exactly the six documented names are accepted, in any letter case -/
+theorem recFilterKind_isSome (s : String) :
+    (recFilterKind s).isSome = decide (s.toLower ∈ ["ram-lak", "ramp-cont", "ramp", "shepp-logan", "cosine", "hamming"]) := by
+  unfold recFilterKind
+  simp only
+  split <;> simp_all
+
+theorem inShape_reverse2 (m n i j : Nat) : inShape [n, m] [j, i] = inShape [m, n] [i, j] := by
+  simp only [inShape, Bool.and_true]
+  exact Bool.and_comm _ _
+
+section
+variable {α : Type} (o : Ops α)
+
+theorem recFilterRadial_shape (ps : List Nat) (val : α → α) : (recFilterRadial o ps val).shape = ps := rfl
+
+/-- entry `(i, j)` of the plane-shaped filter: `val` of the radial grid of the transposed shape at `(j, i)` -/
+theorem recFilterRadial_getD (m n i j : Nat) (val : α → α) (d : α) (h : inShape [m, n] [i, j] = true) :
+    (recFilterRadial o [m, n] val).getD [i, j] d = val (radial o (axesHalf [n, m] false) [j, i]) := by
+  unfold recFilterRadial
+  rw [Arr.getD_ofFn _ _ _ _ h]; rfl
+
+/-- radial reconstruction filters are symmetric under frequency negation on both axes of the plane (read
+through the `fftshift` position of a DC-first index of the transposed shape) -/
+theorem recFilterRadial_neg_symm (L : SignLaws o) (m n : Nat) (val : α → α) (flags : List Bool) (idx : List Nat) (d : α)
+    (h : inShape [n, m] idx = true) (hf : flagsOk (axesHalf [n, m] false) flags = true) :
+    (recFilterRadial o [m, n] val).getD (srcIdx (axesHalf [n, m] false) (negIdx flags [n, m] idx)).reverse d =
+      (recFilterRadial o [m, n] val).getD (srcIdx (axesHalf [n, m] false) idx).reverse d := by
+  have hn := axesHalf_n [n, m] false
+  have h' : inShape ((axesHalf [n, m] false).map Ax.n) idx = true := by rw [hn]; exact h
+  have hneg := inShape_negIdx (axesHalf [n, m] false) flags idx h' hf
+  have s1 := inShape_srcIdx (axesHalf [n, m] false) _ hneg
+  have s2 := inShape_srcIdx (axesHalf [n, m] false) idx h'
+  have hrad := radial_neg o L (axesHalf [n, m] false) flags idx h' hf
+  rw [hn] at s1 s2 hrad
+  -- both source indices are pairs
+  obtain ⟨a1, b1, e1⟩ : ∃ a b, srcIdx (axesHalf [n, m] false) (negIdx flags [n, m] idx) = [a, b] := by
+    have := inShape_length s1
+    match hx : srcIdx (axesHalf [n, m] false) (negIdx flags [n, m] idx), this with
+    | [a, b], _ => exact ⟨a, b, rfl⟩
+  obtain ⟨a2, b2, e2⟩ : ∃ a b, srcIdx (axesHalf [n, m] false) idx = [a, b] := by
+    have := inShape_length s2
+    match hx : srcIdx (axesHalf [n, m] false) idx, this with
+    | [a, b], _ => exact ⟨a, b, rfl⟩
+  rw [e1] at s1 hrad; rw [e2] at s2 hrad
+  rw [e1, e2]
+  simp only [List.reverse_cons, List.reverse_nil, List.nil_append, List.cons_append]
+  rw [recFilterRadial_getD o m n b1 a1 val d (by rw [← inShape_reverse2]; exact s1),
+    recFilterRadial_getD o m n b2 a2 val d (by rw [← inShape_reverse2]; exact s2), hrad]
+
+/-- at the centre of the plane (zero frequency) a radial reconstruction filter takes the value `val 0`:
+`ram-lak`, `shepp-logan`, `cosine` and `hamming` (`f * g(f)`) remove the zero frequency of every projection -/
+theorem recFilterRadial_centre (Z : ZeroLaws o) (m n : Nat) (val : α → α) (d : α) (hm : 2 ≤ m) (hn : 2 ≤ n) :
+    (recFilterRadial o [m, n] val).getD [m / 2, n / 2] d = val o.zero := by
+  rw [recFilterRadial_getD o m n _ _ val d (by simp [inShape]; omega)]
+  congr 1
+  unfold radial radial2
+  simp only [axesHalf, List.isEmpty_cons, List.isEmpty_nil, Bool.and_false, Bool.false_eq_true, if_false,
+    List.zipWith_cons_cons, List.zipWith_nil_right, List.foldl_cons, List.foldl_nil]
+  have t1 : term o ⟨n, false, n / 2⟩ (n / 2) = o.zero := by
+    unfold term Ax.k center
+    simp only [Bool.false_eq_true, if_false, Int.sub_self]
+    rw [Z.zero_div (n / 2) (by omega), Z.mul_zero]
+  have t2 : term o ⟨m, false, m / 2⟩ (m / 2) = o.zero := by
+    unfold term Ax.k center
+    simp only [Bool.false_eq_true, if_false, Int.sub_self]
+    rw [Z.zero_div (m / 2) (by omega), Z.mul_zero]
+  rw [t1, t2, Z.add_zero, Z.add_zero, Z.sqrt_zero]
+
+theorem recFilterRamp_shape (ps : List Nat) (scale : α) : (recFilterRamp o ps scale).shape = ps := rfl
+
+/-- the `ramp` filter depends on the tilt-axis position only and never exceeds 1 (`fmin(·, 1)`): every entry is the
+scaled frequency, or 1 -/
+theorem recFilterRamp_getD (m n i j : Nat) (scale : α) (d : α) (h : inShape [m, n] [i, j] = true) :
+    (recFilterRamp o [m, n] scale).getD [i, j] d =
+      (let v := o.mul (radial o (axesOne [n]) [j]) scale
+       if o.le v o.one then v else o.one) := by
+  unfold recFilterRamp
+  rw [Arr.getD_ofFn _ _ _ _ h]; rfl
+
+theorem recFilterRamp_const_along_opening (m n i i' j : Nat) (scale : α) (d : α)
+    (h : inShape [m, n] [i, j] = true) (h' : inShape [m, n] [i', j] = true) :
+    (recFilterRamp o [m, n] scale).getD [i, j] d = (recFilterRamp o [m, n] scale).getD [i', j] d := by
+  rw [recFilterRamp_getD o m n i j scale d h, recFilterRamp_getD o m n i' j scale d h']
+
+end
+
+theorem recFilterRamp_le_one_rat (m n i j : Nat) (scale d : Rat) (h : inShape [m, n] [i, j] = true) :
+    (recFilterRamp ratOps [m, n] scale).getD [i, j] d ≤ 1 := by
+  rw [recFilterRamp_getD ratOps m n i j scale d h]
+  simp only
+  split
+  · rename_i hle
+    exact of_decide_eq_true hle
+  · exact le_refl _
+
+example : recFilterKind "Ram-Lak" = some "ram-lak" ∧ recFilterKind "HAMMING" = some "hamming" ∧ recFilterKind "hann" = none := by
+  decide +kernel
+example : (recFilterRadial ratOps [3, 5] (fun r => r)).toList = [2, 5/4, 1, 5/4, 2, 1, 1/4, 0, 1/4, 1, 2, 5/4, 1, 5/4, 2] := by
+  decide +kernel
+example : (recFilterRamp ratOps [2, 5] 10).toList = [1, 2/5, 0, 2/5, 1, 1, 2/5, 0, 2/5, 1] := by decide +kernel
+example : flagsOk (axesHalf [5, 3] false) [true, true] = true ∧ inShape [5, 3] [4, 1] = true := by decide
+
+
+section
+variable {α : Type} (o : Ops α)
+
+/-! ## a band-pass / whitening filter that follows a reconstructed wedge in a composition -/
+
+/-- `Compose((wedge, band-pass))(shape=s, return_real_fourier=True)`: the band-pass filter sees the caller's
+`return_real_fourier` (`rrf_never_emitted`) but the wedge's `shape = cropShape s`, `shape_is_real_fourier = True`
+(`shape_emitted_iff`, `compose_overrides_emitted_key`); what it then returns is, voxel by voxel, its stand-alone
+half-spectrum mask for `s` - so the composition is the product of the parts (`compose_eq_product`) -/
+theorem bandpass_after_wedge (L : SignLaws o) (a : BPArgs α) (idx : List Nat) (d : α)
+    (hpos : ∀ n ∈ a.shape, 1 ≤ n) (h : inShape (cropShape a.shape) idx = true) :
+    (bandpass o { a with shape := cropShape a.shape, sirf := true, rrf := true }).getD idx d =
+      (bandpass o { a with sirf := false, rrf := true }).getD idx d := by
+  unfold bandpass
+  have e1 : radialMask o (cropShape a.shape) true true (bandpassVal o { a with shape := cropShape a.shape, sirf := true, rrf := true })
+      = radialMask o (cropShape a.shape) true false (bandpassVal o a) := rfl
+  have e2 : radialMask o a.shape false true (bandpassVal o { a with sirf := false, rrf := true })
+      = radialMask o a.shape false true (bandpassVal o a) := rfl
+  simp only
+  rw [e1, e2]
+  exact rfshape_eq_crop o L a.shape _ idx d hpos h
+
+/-- the whitening filter after a wedge: it is called with the half-spectrum shape flagged as such and returns the
+very same array as for the real-space shape -/
+theorem whiten_after_wedge (spec : Array α) (s : List Nat) :
+    whiten o spec (cropShape s) true = whiten o spec s false := by
+  unfold whiten fourierShape
+  simp
+
+end
+
+example : (bandpass ratOps { exBP with shape := cropShape exBP.shape, sirf := true, rrf := true }).toList =
+    (bandpass ratOps { exBP with rrf := true }).toList := by decide +kernel
+
+
+
+/-! ## bins of a stack; weights of a weighted per-tilt wedge -/
+
+/-- the bins of a stack are those of one member: the batch axis is removed, the rank is `maskRank` -/
+theorem binShape_length (s : List Nat) (b : Nat) (h : b < s.length) :
+    (binShape s (some b)).length = maskRank s.length (some b) ∧ binShape s none = s := by
+  unfold binShape maskRank
+  simp [List.length_eraseIdx, h]
+
+/-- with `weight_wedge=True` the caller's `weights` never reach `step_wedge` unless the (undocumented) keyword
+`wedge_weights` is present -/
+theorem stepWeightsFromCos_iff (ww g : Bool) : stepWeightsFromCos ww g = true ↔ ww = true ∧ g = false := by
+  cases ww <;> cases g <;> decide
+
+example : binShape [3, 9, 5] (some 0) = [9, 5] ∧ maskRank 3 (some 0) = 2 := by decide
+
+
+example : (0 : Rat) ≤ 1/2 ∧ (1/2 : Rat) ≤ 1 ∧ (-1 : Rat) ≤ -1/3 ∧ (-1/3 : Rat) ≤ 1 ∧ ratOps.mul (1/2) (-1/3) = -1/6 := by
+  decide +kernel
+example : (0 : Rat) ≤ 1 ∧ (0 : Rat) < 3 ∧ ratOps.div 1 (ratOps.mul (ratOps.neg (ratOps.ofNat 2)) 3) = -1/6 := by decide +kernel
+
+section
+variable {α : Type} (o : Ops α)
+
+/-! ## the hard-edged pass band is a radial band -/
+
+theorem ite_one_iff (hne : o.zero ≠ o.one) (b : Bool) : (if b = true then o.one else o.zero) = o.one ↔ b = true := by
+  cases b
+  · simp only [Bool.false_eq_true, if_false, iff_false]; exact hne
+  · simp
+
+theorem discreteVal_one_iff (hne : o.zero ≠ o.one) (hi lo : Option α) (r : α) :
+    discreteVal o hi lo r = o.one ↔ (hi.all (fun h => o.le r h) && lo.all (fun l => o.le l r)) = true := by
+  unfold discreteVal
+  rw [ite_one_iff o hne]
+  cases hi <;> cases lo <;> simp [Option.all]
+
+/-- the passed frequencies of a hard-edged band-pass form a band: whatever lies (in the order `le` of the
+scalars, assumed transitive - true of floats and of every ordered field) between two passed radial frequencies
+is passed as well -/
+theorem discrete_band (htrans : ∀ a b c : α, o.le a b = true → o.le b c = true → o.le a c = true)
+    (hne : o.zero ≠ o.one) (hi lo : Option α) (r1 r r2 : α)
+    (h1 : discreteVal o hi lo r1 = o.one) (h2 : discreteVal o hi lo r2 = o.one)
+    (h1r : o.le r1 r = true) (hr2 : o.le r r2 = true) :
+    discreteVal o hi lo r = o.one := by
+  rw [discreteVal_one_iff o hne] at h1 h2 ⊢
+  simp only [Bool.and_eq_true] at h1 h2 ⊢
+  constructor
+  · cases hi with
+    | none => rfl
+    | some h => exact htrans _ _ _ hr2 (by simpa [Option.all] using h2.1)
+  · cases lo with
+    | none => rfl
+    | some l => exact htrans _ _ _ (by simpa [Option.all] using h1.2) h1r
+
+/-- low-pass only: everything below a passed frequency is passed (a ball around the zero frequency) -/
+theorem discrete_lowpass_ball (htrans : ∀ a b c : α, o.le a b = true → o.le b c = true → o.le a c = true)
+    (hne : o.zero ≠ o.one) (hi : Option α) (r r2 : α) (h2 : discreteVal o hi none r2 = o.one) (hr2 : o.le r r2 = true) :
+    discreteVal o hi none r = o.one := by
+  rw [discreteVal_one_iff o hne] at h2 ⊢
+  simp only [Option.all, Bool.and_true] at h2 ⊢
+  cases hi with
+  | none => rfl
+  | some h => exact htrans _ _ _ hr2 h2
+
+end
+
+example : (∀ a b c : Rat, ratOps.le a b = true → ratOps.le b c = true → ratOps.le a c = true) ∧ ratOps.zero ≠ ratOps.one := by
+  refine ⟨?_, by decide +kernel⟩
+  intro a b c h1 h2
+  have h1' : a ≤ b := of_decide_eq_true h1
+  have h2' : b ≤ c := of_decide_eq_true h2
+  exact decide_eq_true (le_trans h1' h2')
+example : discreteVal ratOps (some (1/2)) (some (1/8)) (1/4) = 1 ∧ discreteVal ratOps (some (1/2)) (some (1/8)) (1/2) = 1 ∧
+    discreteVal ratOps (some (1/2)) (some (1/8)) (3/8) = 1 := by decide +kernel
+
+
+
+/-! ## `Wedge.__call__`: constructor's vs call's tilt angles -/
+
+/-- without a call-time override of the angles nothing raises, the stack has one plane per tilt, the reported
+angles describe it, and the cut-off (if any) is applied to every plane -/
+theorem wedgeCallPlan_no_override (func : String) (n : Nat) (cutoff : Bool) :
+    wedgeCallPlan func n n cutoff = ⟨false, n, n, List.replicate n cutoff⟩ := by
+  unfold wedgeCallPlan
+  have e : (if (func == "weight_angle") = true then n else n) = n := by split <;> rfl
+  simp only [e, Nat.lt_irrefl, decide_false, Bool.and_false, Bool.or_self, Bool.false_eq_true, if_false]
+  congr 1
+  have : ∀ i ∈ List.range n, (cutoff && decide (i < n)) = cutoff := by
+    intro i hi
+    simp [List.mem_range.mp hi]
+  rw [List.map_congr_left this, List.map_const', List.length_range]
+
+/-- when it raises (`IndexError`): only `weight_angle` (`weight_type` `None` / `"angle"`) with more call angles than
+weights, or a cut-off loop running over more constructor angles than there are planes -/
+theorem wedgeCallPlan_raises_iff (func : String) (nSelf nCall : Nat) (cutoff : Bool) :
+    (wedgeCallPlan func nSelf nCall cutoff).raises = true ↔
+      (func = "weight_angle" ∧ (nSelf < nCall ∨ (cutoff = true ∧ nCall < nSelf))) := by
+  unfold wedgeCallPlan
+  by_cases hf : func = "weight_angle"
+  · subst hf
+    simp only [beq_self_eq_true, if_true, Bool.true_and, Bool.or_eq_true, decide_eq_true_eq, Bool.and_eq_true, true_and]
+  · have hb : (func == "weight_angle") = false := by simpa using hf
+    simp only [hb, Bool.false_eq_true, if_false, Bool.false_and, Bool.false_or, Nat.lt_irrefl, decide_false, Bool.and_false, hf,
+      false_and]
+
+/-- today's `weight_relion` / `weight_grigorieff` ignore call-time `angles`: the stack keeps one plane per
+constructor angle while the returned dict reports the call's angles (2 planes, 3 reported angles) -/
+theorem wedgeCallPlan_override_current_defect :
+    wedgeCallPlan "weight_relion" 2 3 true = ⟨false, 2, 3, [true, true]⟩ ∧
+    wedgeCallPlan "weight_angle" 2 3 false = ⟨true, 3, 3, []⟩ ∧
+    wedgeCallPlan "weight_angle" 3 2 false = ⟨false, 2, 2, [false, false]⟩ := by decide
+
+example : wedgeCallPlan "weight_grigorieff" 3 3 true = ⟨false, 3, 3, [true, true, true]⟩ := by decide
+
 
 end Pm.C12
